@@ -32,7 +32,12 @@ vfps::FokkerPlanckMap::FokkerPlanckMap( std::shared_ptr<PhaseSpace> in
     const interpol_t e1_6d = e1/(interpol_t(6)*in->getDelta(1));
     const interpol_t e1_d2 = e1/(in->getDelta(1)*in->getDelta(1));
 
-    const meshaxis_t ycenter = in->getAxis(1)->zerobin();
+    /* row at which the one-sided stencil switches sides: the zero-energy bin,
+     * kept inside the rows that get a stencil (the grid may be shifted so far
+     * that zero energy lies outside of it) */
+    const meshaxis_t ycenter = std::min(
+                std::max(in->getAxis(1)->zerobin(),static_cast<meshaxis_t>(2)),
+                static_cast<meshaxis_t>(_ysize-2));
 
     switch (dt) {
     case DerivationType::two_sided:
